@@ -667,15 +667,19 @@ def build_and_verify(unit, root, canary=False, rlimit=None, keep_name=None, _ret
                 os.remove(fp_)
     except OSError:
         pass
-    path = os.path.join(BUILD, 'gen', '%s-%s.rs' % (name, h))
-    cache = os.path.join(BUILD, 'cache', '%s-%s-%s.json' % (name, h, rlimit or 'd'))
+    # keyed by unit and text hash only (`keep_name` names the readable copy): a mutant / seed sweep that leaves a unit's text unchanged hits the result of the plain run
+    base_name = '%s%s' % (unit.name, '_canary' if canary else '')
+    path = os.path.join(BUILD, 'gen', '%s-%s.rs' % (base_name, h))
+    cache = os.path.join(BUILD, 'cache', '%s-%s-%s.json' % (base_name, h, rlimit or 'd'))
+    import threading
+    uniq = '%d.%d' % (os.getpid(), threading.get_ident())
     if not os.path.exists(path):
-        tmpf = path + '.%d.tmp' % os.getpid()
+        tmpf = path + '.%s.tmp' % uniq
         with open(tmpf, 'w') as f:
             f.write(text)
         os.replace(tmpf, path)
     try:
-        tmpf = os.path.join(BUILD, name + '.rs.%d.tmp' % os.getpid())
+        tmpf = os.path.join(BUILD, name + '.rs.%s.tmp' % uniq)
         with open(tmpf, 'w') as f:
             f.write(text)
         os.replace(tmpf, os.path.join(BUILD, name + '.rs'))
@@ -707,7 +711,7 @@ def build_and_verify(unit, root, canary=False, rlimit=None, keep_name=None, _ret
     res['sha_generated'] = h
     if res.get('status') != 'tool-error':
         os.makedirs(os.path.dirname(cache), exist_ok=True)
-        tmp = cache + '.%d.tmp' % os.getpid()
+        tmp = cache + '.%s.tmp' % uniq
         json.dump(res, open(tmp, 'w'))
         os.replace(tmp, cache)
     return gen, res, path
